@@ -22,6 +22,10 @@ KNOBS = dict(cutoff_distance_for_pairs=[0, 0.1, 0.3, 0.6, 1.0], cutoff_intersect
              cache_size=[0, 1, 50, 5000], threshold_to_diff_deeper=[0, 0.33, 0.9, 1])
 
 
+import re as _re
+HEX = _re.compile(r'^[0-9a-f]{16,}$')
+
+
 def same_leaf(a, b):
     return type(a) is type(b) and a == b
 
@@ -128,6 +132,48 @@ def gen_pairs(ctx, n):
         x, y = [d1, other], [other, d2]
         if FAM.in_universe(x, y):
             out.append((x, y))
+    # the second value refers to objects of the first (no cycle: an old record kept inside the new one, a sub-container shared by identity)
+    for _ in range(max(8, n // 10)):
+        old_ = {'name': ctx.rng.choice(['cfg', 'x']), 'base': ctx.rng.choice([None, 1, [1]]), 'items': [ctx.rng.choice([1, 2]), [3]]}
+        new_ = dict(old_)                       # shallow: 'items' is the very same list
+        r = ctx.rng.random()
+        if r < 0.4:
+            new_['base'] = old_
+        elif r < 0.7:
+            new_['base'] = old_['items']
+        else:
+            new_['items'] = [old_['items'], old_]
+        w = ctx.rng.choice([lambda a, b: (a, b), lambda a, b: ([a, 7], [7, b]), lambda a, b: ({'k': a}, {'k': b}), lambda a, b: ([[a], 0], [0, [b]])])
+        x, y = w(old_, new_)
+        out.append((x, y))
+        if FAM.in_universe(copy.deepcopy(x), copy.deepcopy(y)) and ctx.rng.random() < 0.5:
+            out.append((y, x))
+    # items that hold the same leaves grouped differently (nestings that flatten to one sequence), as items of an order-ignored list
+    flat = [([[1, [2]]], [[1], [2]]), ([[['b'], 'a']], [[['b']], 'a']), ([[1, 2]], [[1], 2]), ([[[1]], 2], [[1, [2]]]), ([[1, [2, 3]]], [[1, [2], 3]]), ([[[1, 2]]], [[[1], [2]]]),
+            ([['a', ['b', ['c']]]], [['a', ['b'], ['c']]]), ([[1, []]], [[1], []]), ([[[], 1]], [[[1]]]), ([(1, (2,))], [(1,), (2,)]), ([[1, (2,)]], [[1], (2,)]),
+            ([{'k': [1, [2]]}], [{'k': [[1], [2]]}]), ([[None, [None]]], [[None], [None]]), ([['ab']], [['a', 'b']]), ([['a', 'b']], [['a'], ['b']])]
+    for (x, y) in flat:
+        w = ctx.rng.choice([lambda v: v, lambda v: v + [9], lambda v: {'a': v}, lambda v: [v, 'q']])
+        x2, y2 = w(copy.deepcopy(x)), w(copy.deepcopy(y))
+        if FAM.in_universe(x2, y2):
+            out.append((x2, y2))
+    # lists of numbers of one type with several unmatched items on both sides (the pairing distances of such lists are computed in bulk),
+    # over magnitudes up to and beyond the machine word and the float range
+    big = [2 ** 70, 2 ** 71, 2 ** 70 + 1, 2 ** 71 + 1, -2 ** 70, 2 ** 63, 2 ** 63 - 1, -2 ** 63 - 1, 2 ** 53 + 1, 10 ** 30, 5, 6, 0, -7]
+    bigc = [1 + 2j, 1 + 3j, 2j, 5j, -1 - 2j, 0j, 1e200 + 1j, 3 + 0j, 4.5 - 1j]        # complex leaves: outside the model universe, implementation only
+    bigf = [1e308, 1.5e308, -1e308, 1e-320, 5e-324, 2.5, 0.0, 1e200, 1.0000001e200]
+    for _ in range(max(8, n // 10)):
+        r_ = ctx.rng.random()
+        pool_ = big if r_ < 0.5 else bigf if r_ < 0.75 else bigc
+        k = ctx.rng.randint(2, 4)
+        keep = ctx.rng.sample(pool_, ctx.rng.randint(0, 2))
+        x = keep + ctx.rng.sample(pool_, k)
+        y = ctx.rng.sample(pool_, ctx.rng.randint(2, 4)) + keep
+        ctx.rng.shuffle(y)
+        w = ctx.rng.choice([lambda v: v, lambda v: {'a': v}, lambda v: [v, 'q']])
+        x, y = w(x), w(y)
+        if FAM.in_universe(x, y) or pool_ is bigc:
+            out.append((x, y))
     # same support, same length, different multiplicities (and the same lists nested one level down)
     pool = [0, 1, 2, 'a', 'b', None, 1.5, (1, 2), [3], {'k': 1}]
     for _ in range(max(6, n // 6)):
@@ -176,7 +222,10 @@ def run(ctx, impl_only=False):
                     ctx.violate(case, 'the result is %s but the values are %s as nested %s' % ('empty' if empty else 'not empty: ' + str(dd)[:120],
                                 'equal' if want else 'different', 'multisets' if rep else 'sets'))
                 verdicts[repr(sorted(kn.items()))] = empty
-                if not impl_only:
+                if not impl_only and any(not HEX.match(h_) for (_, ha_, hr_) in ps for h_ in (ha_, hr_)):
+                    ctx.diverge(case, 'the items of the order-ignoring diff are keyed by %r' % [h_ for (_, ha_, hr_) in ps for h_ in (ha_, hr_) if not HEX.match(h_)][0][:60],
+                                'hexadecimal digests', op='IODIFF')
+                elif not impl_only:
                     try:
                         a = DF.canon_text(dd, 2)
                         lines.append(IO.iodiff_line(t1, t2, ps, rep, kn['threshold_to_diff_deeper'], True, 2))
@@ -199,6 +248,16 @@ def run(ctx, impl_only=False):
             ctx.violate({'witness': 'F48'}, 'the repaired case F48 fails again')
     except ImportError:
         pass
+    # ---- repaired: unmatched integers beyond the numpy integer range (F53), unmatched complex numbers (F54)
+    for fid, fn in {'F53': lambda: bool(DeepDiff([2 ** 70, 2 ** 71, 5], [5, 2 ** 70 + 1, 2 ** 71 + 1], ignore_order=True)) and not DeepDiff([2 ** 70, 2 ** 71, 5], [5, 2 ** 71, 2 ** 70], ignore_order=True),
+                    'F54': lambda: bool(DeepDiff([1 + 2j, 3, 5], [5, 1 + 3j, 4], ignore_order=True)) and not DeepDiff([1 + 2j, 3], [3, 1 + 2j], ignore_order=True)}.items():
+        ctx.evaluations += 1
+        try:
+            ok = fn()
+        except Exception:
+            ok = False
+        if not ok:
+            ctx.violate({'witness': fid}, 'the repaired case %s fails again' % fid)
     if ctx.build_ok and not impl_only and lines:
         ans = core.run_model(lines)
         for (case, a), m in zip(metas, ans):
